@@ -159,4 +159,49 @@ int g_bind[KEY_COUNT];                                                        /*
   __CPROVER_assigns(__CPROVER_object_whole(g_bind))                                                                    \
   __CPROVER_ensures(g_bind[KEY_RN_NAME] == MEMBER_radionuclide_name && g_bind[KEY_RN_HALFLIFE] == MEMBER_radionuclide_half_life \
                     && g_bind[KEY_RN_BRANCHING] == MEMBER_radionuclide_branching_ratio)
+
+/* ---- byte order: read_data's overloads hand the caller's byte order down ----
+   From the property ("voxel values round-trip for all number types and byte orders"): every inner read of one read_data call
+   uses the byte order that call was given - never the default argument (ByteOrder::native) of an overload. */
+#define BYTEORDER_DEFAULT_ARGUMENT (-12345) /* marks a call that relied on the default argument 'byte_order = ByteOrder::native' */
+int g_inner_calls, g_inner_wrong, g_caller_bo; _Bool g_same_type, g_contiguous;
+static inline int K_inner_io(int bo)
+{
+  ++g_inner_calls;
+  if (bo != g_caller_bo)
+    ++g_inner_wrong;
+  return nondet_bool() ? 1 : 0;
+}
+static inline void K_convert(void) {}
+#define CONTRACT_K_io_byte_order_common                                                                               \
+  __CPROVER_requires(byte_order >= 0 && byte_order <= 3 && g_caller_bo == byte_order && g_inner_calls == 0 && g_inner_wrong == 0) \
+  __CPROVER_ensures(g_inner_wrong == 0)
+#define CONTRACT_K_rd_conv                                                                                            \
+  __CPROVER_requires(__CPROVER_is_fresh(scale_factor, sizeof(float)))                                                  \
+  CONTRACT_K_io_byte_order_common                                                                                     \
+  __CPROVER_assigns(*scale_factor, g_inner_calls, g_inner_wrong)                                                       \
+  __CPROVER_ensures(g_inner_calls == 1)
+#define CONTRACT_K_rd_recurse                                                                                         \
+  __CPROVER_requires(n_rows >= 0 && n_rows < 100000)                                                                   \
+  CONTRACT_K_io_byte_order_common                                                                                     \
+  __CPROVER_assigns(g_inner_calls, g_inner_wrong)                                                                      \
+  __CPROVER_ensures(__CPROVER_return_value == 1 ==> g_inner_calls == (g_contiguous ? 1 : n_rows))
+#define LC_K_rd_recurse_0                                                                                             \
+  __CPROVER_assigns(iter, g_inner_calls, g_inner_wrong)                                                                \
+  __CPROVER_loop_invariant(iter >= 0 && iter <= n_rows && g_inner_calls == iter && g_inner_wrong == 0)                 \
+  __CPROVER_decreases(n_rows - iter)
+
+/* write side: write_data_with_fixed_scale_factor_help (1D: converts if needed, then write_data_1d; nD: recursion over the rows) */
+static inline float K_convert_scale(float preferred) { float r = nondet_float(); __CPROVER_assume(r >= -1e30F && r <= 1e30F); return r; } /* convert_array may change the preferred scale factor */
+#define CONTRACT_K_wr_fixed_1d                                                                                        \
+  CONTRACT_K_io_byte_order_common                                                                                     \
+  __CPROVER_requires(scale_factor >= -1e30F && scale_factor <= 1e30F)                                                  \
+  __CPROVER_assigns(g_inner_calls, g_inner_wrong)                                                                      \
+  __CPROVER_ensures(g_inner_calls <= 1)
+#define CONTRACT_K_wr_fixed_recurse                                                                                   \
+  __CPROVER_requires(n_rows >= 0 && n_rows < 100000)                                                                   \
+  CONTRACT_K_io_byte_order_common                                                                                     \
+  __CPROVER_assigns(g_inner_calls, g_inner_wrong)                                                                      \
+  __CPROVER_ensures(__CPROVER_return_value == 1 ==> g_inner_calls == n_rows)
+#define LC_K_wr_fixed_recurse_0 LC_K_rd_recurse_0
 #endif
